@@ -26,6 +26,7 @@
 #include <sys/time.h>
 #include <sys/wait.h>
 #include <sys/syscall.h>
+#include <dlfcn.h>
 
 /* unit style: the queue's ring indices are part of the canonical trace */
 #include "lib/async/async_queue.c"
@@ -37,7 +38,9 @@
 extern void (*verif_async_yield) (int point, void *worker);
 #endif
 
-#define LIVE_MS 60000		/* liveness bound of every wait-for-condition (never a verdict by itself) */
+#define LIVE_MS 60000
+#define TICK_MS 4000		/* liveness bound for a due timer tick (waited for at most once per case) */
+#define MT_LIVE_MS 30000	/* liveness bound of a multi-thread run (they take well under a second) */		/* liveness bound of every wait-for-condition (never a verdict by itself) */
 #define POLL_MS 10		/* poll interval of the timed join (async_worker_pthread.c) */
 
 /* Timing rules of this harness (the check runs on busy machines):
@@ -195,6 +198,22 @@ static void park (int g)
   cw.gate = g;
   sem_post (&cw.arrived);
   sem_wait (&cw.go);
+}
+
+static __thread uint64_t *write_jitter;	/* mt runs: random delay BEHIND the doorbell write of this (producer) thread */
+
+ssize_t write (int fd, const void *buf, size_t n)
+{
+  ssize_t r = syscall (SYS_write, fd, buf, n);
+  if (fd == gate_fd && gate_fd >= 0 && write_jitter)
+    {
+      int e = errno;
+      rnd_yield (write_jitter);
+      if (*write_jitter % 3 == 0)
+        usleep (*write_jitter % 400);
+      errno = e;
+    }
+  return r;
 }
 
 ssize_t read (int fd, void *buf, size_t n)
@@ -510,7 +529,8 @@ static void *scripted_proc (void *ctx)
       sem_wait (&s->step);
       if (__atomic_load_n (&s->quit, __ATOMIC_ACQUIRE))
         break;
-      if (async_worker_should_stop (async_worker_current ()))
+      /* the stop event is manual-reset: once signalled it STAYS signalled, every poll must see it */
+      if (async_worker_should_stop (async_worker_current ()) && async_worker_should_stop (async_worker_current ()))
         break;
       __atomic_fetch_add (&s->steps, 1, __ATOMIC_ACQ_REL);
     }
@@ -534,6 +554,77 @@ static void wait_thread_exit (wslot_t * s)
     usleep (200);
   usleep (500);
   s->exited = 1;
+}
+
+/* The creator-side window of async_worker_create: pthread_create() is interposed in this executable.  In `race` mode
+ * it does not return to the creator until the NEW THREAD HAS RUN TO ITS END (a short-lived worker, the creator
+ * preempted right after the thread was started) - so whatever the creator stores into the worker afterwards arrives
+ * after the thread wrapper's STOPPED store.  No sleeps: the new thread publishes its kernel tid, the creator waits
+ * until /proc/self/task/<tid> has disappeared (the thread has exited). */
+static __thread int race_create;	/* set by the controlling thread around async_worker_create */
+static volatile int race_tid;
+
+static void *race_proc (void *ctx)
+{
+  (void) ctx;
+  __atomic_store_n (&race_tid, (int) syscall (SYS_gettid), __ATOMIC_RELEASE);
+  return 0;			/* a worker procedure that returns at once */
+}
+
+int pthread_create (pthread_t * th, const pthread_attr_t * attr, void *(*fn) (void *), void *arg)
+{
+  static int (*real) (pthread_t *, const pthread_attr_t *, void *(*)(void *), void *);
+  int rc;
+  if (!real)
+    real = (int (*)(pthread_t *, const pthread_attr_t *, void *(*)(void *), void *)) dlsym (RTLD_NEXT, "pthread_create");
+  rc = real (th, attr, fn, arg);
+  if (rc == 0 && race_create)
+    {
+      long end = now_ms () + LIVE_MS;
+      char path[64];
+      int tid;
+      while (!(tid = __atomic_load_n (&race_tid, __ATOMIC_ACQUIRE)) && now_ms () < end)
+        usleep (100);
+      snprintf (path, sizeof path, "/proc/self/task/%d", tid);
+      while (tid && access (path, F_OK) == 0 && now_ms () < end)
+        usleep (100);
+    }
+  return rc;
+}
+
+static void cmd_wnew_race (int w)
+{
+  wslot_t *s = slot_of (w, 0);
+  if (!s)
+    {
+      emit ("skip no-worker");
+      return;
+    }
+  if (s->used)
+    {
+      emit ("skip worker-exists");
+      return;
+    }
+  memset (s, 0, sizeof *s);
+  s->used = 1;
+  sem_init (&s->gate1, 0, 0);
+  sem_init (&s->step, 0, 0);
+#ifdef NEOLITH_VERIF
+  verif_async_yield = yield_cb;	/* other workers of this case still need their yield points */
+#endif
+  creating = s;
+  race_tid = 0;
+  race_create = 1;
+  s->w = async_worker_create (race_proc, s, 0);
+  race_create = 0;
+  if (!s->w)
+    {
+      emit ("wnew %d null", w);
+      return;
+    }
+  s->reached1 = s->inproc = s->returned = 1;
+  s->exited = 1;
+  emit ("wnew %d finished", w);
 }
 
 static void cmd_wnew (int w, int hold)
@@ -654,7 +745,10 @@ static int worker_cmd (char **tok, int n)
   int w = n > 1 ? atoi (tok[1]) : -1;
   if (!strcmp (tok[0], "wnew") && n == 3)
     {
-      cmd_wnew (w, !strcmp (tok[2], "hold"));
+      if (!strcmp (tok[2], "race"))
+        cmd_wnew_race (w);
+      else
+        cmd_wnew (w, !strcmp (tok[2], "hold"));
       return 1;
     }
   if (!strcmp (tok[0], "wjoin") && n == 3)
@@ -751,6 +845,7 @@ static platform_timer_t tm;
 static int tm_inited;
 static unsigned long tm_interval_ms;
 static volatile int tm_count;
+static int tick_dead;		/* a due tick did not come within TICK_MS: do not wait again in this case */
 static unsigned long tm_slept;	/* ms slept while the timer was active since the last tticks / start / stop */
 
 static void tm_callback (void)
@@ -814,7 +909,10 @@ static int timer_cmd (char **tok, int n)
       /* a tick is due (the timer was active for >= 10 intervals): on a slow machine the timer thread may not have
        * been scheduled yet - wait for the tick itself, the time slept is no verdict */
       if (tm_inited && platform_timer_is_active (&tm) && tm_slept >= 10 * tm_interval_ms && tm_slept > 0)
-        wait_flag (&tm_count, LIVE_MS);
+        {
+          if (!tick_dead && !wait_flag (&tm_count, TICK_MS))
+            tick_dead = 1;
+        }
       c = __atomic_exchange_n (&tm_count, 0, __ATOMIC_ACQ_REL);
       /* too short a sleep to promise a tick: the class is not determined by the schedule */
       int amb = tm_inited && platform_timer_is_active (&tm) && tm_slept > 0 && tm_slept < 10 * tm_interval_ms;
@@ -872,6 +970,7 @@ static void *post_producer (void *arg)
 {
   prod_t *p = (prod_t *) arg;
   int burst = 1 + (int) (rng_next (&p->seed) % 12);
+  write_jitter = &p->seed;	/* widen the window between this thread's doorbell write and whatever follows it */
   for (int i = 0; i < p->nper; i++)
     {
       rnd_yield (&p->seed);
@@ -920,7 +1019,7 @@ static void mt_post (int nprod, int nper, int maxev, uint64_t seed)
       pr[i].id = i, pr[i].nper = nper, pr[i].seed = seed * 131 + i, pr[i].refused = 0, pr[i].done = 0, pr[i].gen = 0;
       pthread_create (&th[i], 0, post_producer, &pr[i]);
     }
-  deadline = now_ms () + 2 * LIVE_MS;	/* liveness only: producers stuck */
+  deadline = now_ms () + MT_LIVE_MS;	/* liveness only: producers stuck */
   int empty_after_done = 0, stuck = 0;
   while (got + lost < total && now_ms () < deadline)
     {
@@ -1052,7 +1151,7 @@ static void mt_queue (int flags, int cap, int nprod, int nper, uint64_t seed)
       pr[i].id = i, pr[i].nper = nper, pr[i].seed = seed * 977 + i, pr[i].retry = exact, pr[i].done = 0;
       pthread_create (&th[i], 0, queue_producer, &pr[i]);
     }
-  deadline = now_ms () + 2 * LIVE_MS;	/* liveness only: producers stuck */
+  deadline = now_ms () + MT_LIVE_MS;	/* liveness only: producers stuck */
   int joined = 0;
   for (;;)
     {
@@ -1205,7 +1304,7 @@ static void mt_timer (int interval, int run, uint64_t seed)
           break;
         }
       usleep (1000 * run + rng_next (&seed) % (1000 * interval));
-      if (run >= 10 * interval && !wait_flag (&tm_count, LIVE_MS))	/* waits for the first tick, however slow the machine */
+      if (run >= 10 * interval && !wait_flag (&tm_count, TICK_MS))	/* waits for the first tick, however slow the machine */
         why = "never-fired";
       t0 = now_ms ();
       if (round == 2)
@@ -1396,7 +1495,7 @@ int main (int argc, char **argv)
 {
   const char *scratch = "/tmp";
   const char *keepdir = 0;
-  int timeout = 900;
+  int timeout = 150;
   char *line;
   for (int i = 1; i < argc; i++)
     {
